@@ -521,25 +521,50 @@ Definition geostate_eqb (a b : geostate) : bool :=
   opt_eqb sd_eqb (gs_sdims a) (gs_sdims b) && opt_eqb crs_eqb (gs_crs a) (gs_crs b) &&
   opt_eqb aff_eqb (gs_transform a) (gs_transform b) && opt_eqb anybox_eqb (gs_box a) (gs_box b).
 
-(** Contract of element-wise operations / astype / pickle / copy (xarray,
-    oracle): dimensions and all coordinates (values, attrs, encoding) are
-    unchanged; the array's own [grid_mapping] (encoding or attribute) and CRS
-    attributes are either unchanged or dropped, never invented. *)
+(** Contract of element-wise operations / astype / pickle / copy / transpose
+    (xarray, oracle): all coordinates (values, attrs, encoding) and the data
+    variables are unchanged; the dimensions are the same set with the same sizes
+    (possibly reordered, but still naming the same spatial pair); the array's own
+    [grid_mapping] (encoding or attribute) and CRS attributes are either
+    unchanged or dropped, never invented.  An operation is therefore described
+    by what it may change: dimension order, grid_mapping encoding, attributes. *)
 Definition kept_or_dropped (k : string) (a a' : attrs) : bool :=
   match lookup k a' with
   | None => true
   | Some v' => opt_eqb aval_eqb (lookup k a) (Some v')
   end.
-Definition elem_ok (x x' : xobj) : bool :=
-  Bool.eqb (x_is_ds x) (x_is_ds x') &&
-  dims_eqb false (x_dims x) (x_dims x') &&
-  opt_eqb sd_eqb (spatial_dims (map fst (x_dims x))) (spatial_dims (map fst (x_dims x'))) &&
-  coords_eqb (x_coords x) (x_coords x') &&
-  match x_gm x' with None => true | Some s => opt_eqb String.eqb (x_gm x) (Some s) end &&
-  kept_or_dropped "grid_mapping" (x_attrs x) (x_attrs x') &&
-  kept_or_dropped "crs" (x_attrs x) (x_attrs x') &&
-  kept_or_dropped "crs_wkt" (x_attrs x) (x_attrs x') &&
-  amap_eqb xvar_eqb (x_vars x) (x_vars x').
+Definition elem_step (x : xobj) (dims' : list (string * Z)) (gm' : option string) (attrs' : attrs) : res xobj :=
+  if dims_eqb false (x_dims x) dims' &&
+     opt_eqb sd_eqb (spatial_dims (map fst (x_dims x))) (spatial_dims (map fst dims')) &&
+     match gm' with None => true | Some s => opt_eqb String.eqb (x_gm x) (Some s) end &&
+     kept_or_dropped "grid_mapping" (x_attrs x) attrs' &&
+     kept_or_dropped "crs" (x_attrs x) attrs' &&
+     kept_or_dropped "crs_wkt" (x_attrs x) attrs'
+  then Ok (XObj (x_is_ds x) dims' gm' attrs' (x_coords x) (x_vars x))
+  else Err EOther.
+
+(** Operation histories. *)
+Inductive op :=
+| OIsel (dim : string) (s : pyslice)
+| OElem (dims' : list (string * Z)) (gm' : option string) (attrs' : attrs).
+
+Fixpoint run_history (x : xobj) (h : list op) : res xobj :=
+  match h with
+  | [] => Ok x
+  | OIsel d s :: r => x' <- isel x d s ;; run_history x' r
+  | OElem dims' gm' attrs' :: r => x' <- elem_step x dims' gm' attrs' ;; run_history x' r
+  end.
+
+(** The composed index map of a history along dimension [d]: the same
+    positional selections applied to the vector of original pixel indices. *)
+Fixpoint axis_idx (d : string) (idx : list Z) (h : list op) : res (list Z) :=
+  match h with
+  | [] => Ok idx
+  | OIsel d' s :: r =>
+      if String.eqb d' d then i <- slice_idx (zlen idx) s ;; axis_idx d (pick idx i) r
+      else axis_idx d idx r
+  | OElem _ _ _ :: r => axis_idx d idx r
+  end.
 
 (* ------------------------------------------------------------------ reprojection output assembly *)
 (** math.split_float / maybe_int on finite values *)
